@@ -21,7 +21,15 @@ ASSUME = [
 
 
 def run(ctx):
-    layout_corr.run_property(ctx, "C11", MODULE, ASSUME)
+    layout_corr.run_property(ctx, "C11", MODULE, ASSUME,
+                             extra_modules=["TriompheModel.Props.C11Hist", "TriompheModel.Proofs.HistOff"])
+    # history clause (Props/C11Hist.lean): stored words along histories — block-address kinds store the
+    # block start, data-address kinds the value's address, identical across clones / conversions /
+    # handle kinds and stable while the allocation lives; the history correspondence prints the stored
+    # word of every slot after every op (incl. the over-aligned TrackedB, data offset 16)
+    from vlib import histcheck
+    histcheck.run(ctx, MODULE, dict(create=16, conv=30, clone=16, cloneArc=10, cb=8, makeMut=5, drop=8, intoThin=4),
+                  ["C11"], lean=False, cov_key="history_pass", n_quick=150)
 
 
 def replay(ctx, path):
